@@ -55,7 +55,8 @@ Inductive val :=
   | VMap (l : list (val * val))
   | VRange (s e st : Z).         (* *xgo.IntRange *)
 
-Inductive binop := BAdd | BSub | BMul | BRem | BLt | BLe | BGt | BEq | BNe.
+Inductive binop := BAdd | BSub | BMul | BRem | BLt | BLe | BGt | BEq | BNe
+  | BQuo | BShl | BShr | BAnd | BAndNot | BOr | BXor | BGe.
 Inductive conv := CItoa | CFloat | CBool | CError.   (* strconv.Itoa / FormatFloat / FormatBool / .Error() *)
 
 Inductive expr :=
@@ -68,6 +69,8 @@ Inductive expr :=
                                              (id, the argument values it received), returns the tuple rs *)
   | EBin (op : binop) (a b : expr)
   | EAnd (a b : expr)
+  | EOr (a b : expr)
+  | ENot (a : expr)
   | EAppend (s x : expr)
   | EAppendAll (s x : expr)               (* append(s, x...) *)
   | EList (es : list expr)
@@ -130,6 +133,12 @@ Definition bin_eval (op : binop) (a b : val) : res val :=
     | BRem => if y =? 0 then RPanic (VStr []) else RVal (VInt (Z.rem x y))
     | BLt => RVal (VBool (x <? y)) | BLe => RVal (VBool (x <=? y)) | BGt => RVal (VBool (y <? x))
     | BEq => RVal (VBool (x =? y)) | BNe => RVal (VBool (negb (x =? y)))
+    | BGe => RVal (VBool (y <=? x))
+    | BQuo => if y =? 0 then RPanic (VStr []) else RVal (VInt (Z.quot x y))
+    | BShl => if y <? 0 then RPanic (VStr []) else RVal (VInt (Z.shiftl x y))
+    | BShr => if y <? 0 then RPanic (VStr []) else RVal (VInt (Z.shiftr x y))
+    | BAnd => RVal (VInt (Z.land x y)) | BAndNot => RVal (VInt (Z.ldiff x y))
+    | BOr => RVal (VInt (Z.lor x y)) | BXor => RVal (VInt (Z.lxor x y))
     end
   | VStr x, VStr y =>
     match op with
@@ -276,6 +285,16 @@ Section Conv.
                             match y with VBool _ => (RVal [y], en2, tr2) | _ => (RStuck, en2, tr2) end)
           | _ => (RStuck, en1, tr1)
           end)
+      | EOr a b =>
+        ev1 a en tr (fun x en1 tr1 =>
+          match x with
+          | VBool true => (RVal [VBool true], en1, tr1)
+          | VBool false => ev1 b en1 tr1 (fun y en2 tr2 =>
+                            match y with VBool _ => (RVal [y], en2, tr2) | _ => (RStuck, en2, tr2) end)
+          | _ => (RStuck, en1, tr1)
+          end)
+      | ENot a => ev1 a en tr (fun x en1 tr1 =>
+          match x with VBool b => (RVal [VBool (negb b)], en1, tr1) | _ => (RStuck, en1, tr1) end)
       | EAppend s x =>
         ev1 s en tr (fun a en1 tr1 => ev1 x en1 tr1 (fun b en2 tr2 =>
           match a with VList l => (RVal [VList (l ++ [b])], en2, tr2) | _ => (RStuck, en2, tr2) end))
